@@ -108,6 +108,9 @@ let run_cfg (cfg : 'k cfg) (casetext : string) (ops : string list) =
       | Some (HtObsRemove (Some e)) -> bump (-1); r := ("r1" ^ freed_suffix (Some e)) :: !r
       | Some (HtObsNum n) -> r := ("n" ^ string_of_int (int_of_nat n)) :: !r
       | Some (HtObsAll None) -> r := "aN" :: !r; o := "aN" :: !o
+      | Some (HtObsAll (Some [])) when cfg.iter = `Keys ->
+        (* the wrappers' keys() functions return NULL for an empty table *)
+        r := "aN" :: !r; o := "aN" :: !o
       | Some (HtObsAll (Some l)) ->
         let toks = (match cfg.iter with `Keys -> List.map (fun (k, _) -> cfg.kprint k) l | _ -> List.map pe l) in
         r := bracket "a" (List.sort compare toks) :: !r; o := bracket "a" toks :: !o
